@@ -127,13 +127,17 @@ pub struct Profile {
     pub codepages: bool,
     /// non-ASCII strings from the current page's repertoire
     pub non_ascii: bool,
+    /// now and then offer a row with one value that is invalid for its column
+    /// (out of the storage type but inside a wide declared range, too long,
+    /// outside the enumeration): the library must refuse it
+    pub try_invalid: bool,
 }
 
-pub const PLAIN: Profile = Profile { name: "plain", allow_empty: true, allow_key_update: false, allow_long: false, codepages: true, non_ascii: true };
+pub const PLAIN: Profile = Profile { name: "plain", allow_empty: true, allow_key_update: false, allow_long: false, codepages: true, non_ascii: true, try_invalid: false };
 
 pub const TABLE_NAMES: [&str; 8] = ["A", "B", "T1", "Tbl.x", "_u", "Feature", "Long_Table.Name_0123456789", "z9"];
 pub const COLUMN_NAMES: [&str; 8] = ["k", "a", "b", "Name", "Value_1", "c.d", "_e", "Zed"];
-pub const STREAM_NAMES: [&str; 6] = ["Binary.a", "Icon.App.ico", "s1", "data_2", "Z", "Cab.1"];
+pub const STREAM_NAMES: [&str; 8] = ["Binary.a", "Icon.App.ico", "s1", "data_2", "Z", "Cab.1", "A", "T1"];
 pub const ASCII_STRINGS: [&str; 14] = ["", "a", "b", "ab", "A", "Name", "x y", "Value_1", "A", "0", "-1", "The quick brown fox", "k", "T1"];
 pub const INT_BOUNDS: [i32; 19] = [0, 1, -1, 2, 31, 32, 127, 128, 255, 256, 32766, 32767, -32767, -32768, 32768, 65535, 65536, i32::MAX, -i32::MAX];
 pub const LONG_LENGTHS: [usize; 6] = [65534, 65535, 65536, 65537, 70000, 131072];
@@ -249,6 +253,10 @@ pub enum Outcome {
     /// a select: (rows returned by the library, expected per model row: Some(true) must be in, Some(false) must not, None either; projected expected rows)
     Selected,
     Reopened(CloseMode, Snapshot, Snapshot, Vec<u8>),
+    /// the library accepted a row the reference says is invalid: model and
+    /// package have diverged, the history ends here (C07 owns the verdict;
+    /// C05 still checks its invariant on the resulting state)
+    Diverged(String),
 }
 
 fn io_fail(p: &str, op: &str, what: &str, e: std::io::Error) -> Fail {
@@ -283,9 +291,15 @@ impl Run {
     fn plain_string(&self, sel: u16, page: &Page) -> String {
         let n_ascii = ASCII_STRINGS.len();
         let use_page = self.prof.non_ascii && sel % 3 == 2;
+        if use_page && sel % 11 == 5 {
+            let boms = cpref::bom_lookalikes(page);
+            if !boms.is_empty() {
+                return boms[(sel as usize / 11) % boms.len()].clone();
+            }
+        }
         if use_page {
             let rep = cpref::repertoire(page);
-            let non_ascii: Vec<char> = rep.into_iter().filter(|c| !c.is_ascii() && *c != '\u{feff}').collect();
+            let non_ascii: Vec<char> = rep.into_iter().filter(|c| !c.is_ascii()).collect();
             if !non_ascii.is_empty() {
                 let k = 1 + (sel as usize / 7) % 3;
                 let mut s = String::new();
@@ -387,17 +401,24 @@ impl Run {
                         // keep category-valid samples storable
                         c.ty = Ty::Str([0usize, 64, 255][(s.width % 3) as usize]);
                     }
+                    if s.range % 16 == 13 {
+                        // a declared range on a string column is legal (and meaningless)
+                        c.range = Some((0, 100));
+                    }
                     if s.enums % 8 == 7 && c.category.is_none() {
                         c.enums = vec!["Y".to_string(), "N".to_string(), "Maybe".to_string()];
                         c.ty = Ty::Str([0usize, 8, 64][(s.width % 3) as usize]);
                     }
                 }
                 _ => {
-                    c.range = match s.range % 8 {
-                        0..=4 => None,
-                        5 => Some((0, 100)),
-                        6 => Some((-5, 5)),
-                        _ => Some((-32767, 32767)),
+                    c.range = match s.range % 16 {
+                        0..=8 => None,
+                        9 | 10 => Some((0, 100)),
+                        11 => Some((-5, 5)),
+                        12 => Some((-32767, 32767)),
+                        13 => Some((0, 100_000)),
+                        14 => Some((-40_000, 40_000)),
+                        _ => Some((-i32::MAX, i32::MAX)),
                     };
                 }
             }
@@ -556,6 +577,32 @@ impl Run {
                 if new_rows.is_empty() {
                     self.skipped += 1;
                     return Ok(Outcome::Skipped);
+                }
+                if self.prof.try_invalid && rows.first().and_then(|r| r.first()).map(|v| v.class % 8 == 5).unwrap_or(false) {
+                    // spoil one cell of the last row
+                    let seed = &rows[0][0];
+                    let ci = (seed.str_sel as usize) % table.cols.len();
+                    let c = &table.cols[ci];
+                    let bad: Option<V> = match c.ty {
+                        Ty::I16 => Some(V::Int([32768, 65536, 70000, -32768, -40000, 65535][(seed.int_sel.unsigned_abs() % 6) as usize])),
+                        Ty::I32 => Some(V::Int(i32::MIN)),
+                        Ty::Str(w) if w > 0 => Some(V::Str("x".repeat(w + 1))),
+                        Ty::Str(_) if !c.enums.is_empty() => Some(V::Str("NotInTheSet".into())),
+                        Ty::Str(_) => Some(V::Int(1)),
+                    };
+                    if let Some(b) = bad {
+                        if c.valid_ref(&b) == Some(false) {
+                            let last = new_rows.len() - 1;
+                            new_rows[last][ci] = b.clone();
+                            self.classes.push("invalid-value-offered");
+                            self.trace.push(format!("insert({tname}, {}) [one value invalid: {b:?} in column {}]", show_rows(&new_rows), c.name));
+                            let q = Insert::into(tname.as_str()).rows(new_rows.iter().map(|r| r.iter().map(|v| v.to_msi()).collect()).collect());
+                            return match self.pkg().insert_rows(q) {
+                                Err(_) => Ok(Outcome::Skipped),
+                                Ok(()) => Ok(Outcome::Diverged(format!("insert accepted {b:?} for column {:?}", c))),
+                            };
+                        }
+                    }
                 }
                 if new_rows.len() > 1 {
                     self.classes.push("batch-insert");
